@@ -80,7 +80,7 @@ theorem lf_mapping (t sa : List Nat)
     (r : Nat) (hr : r < t.length) :
     lessRef (bwtRef t sa) ((bwtRef t sa).getD r 0) + occRef (bwtRef t sa) r ((bwtRef t sa).getD r 0) - 1 =
       sa.idxOf ((sa.getD r 0 + t.length - 1) % t.length) :=
-  LF.lf_mapping t sa ⟨hperm, hsorted, hhead⟩ ⟨hpos, hmin, huniq⟩ r hr
+  LFMap.lf_mapping t sa ⟨hperm, hsorted, hhead⟩ ⟨hpos, hmin, huniq⟩ r hr
 
 /-- **`invert_bwt(bwt(t)) = t`**: the mirror model of `bwtfind` + `invert_bwt` (less array of size `m`, slots
 `less[c]++`, `r = bwtfind[r]; push bwt[r]`) reproduces every text whose last symbol is its unique smallest symbol
